@@ -5,6 +5,7 @@ CONSTANTS
   FocusGroups <- PairGroups
   Modes <- BothModes
   MaxWeight = 2
+  RouteWeight = 0
   MaxBuilds = 2
   KeyVariant = "xor"
 VIEW View
